@@ -33,14 +33,22 @@ def gen_cases(rng, tier):
             k = rng.pick(STEP_KINDS)
             steps.append({'t': k, 'wrap': rng.pick(WRAPS), 'arg': rng.randint(1, 3)})
         splits = sorted(rng.sample(range(len(steps) + 1), min(len(steps) + 1, rng.randint(0, 3))))
-        cases.append({'kind': 'pipeline', 'sizes': sizes, 'steps': steps, 'splits': splits, 'cond': rng.chance(0.5)})
+        late = rng.chance(0.3)
+        if late:
+            # a column that is null throughout the inference sample and typed later: list and generator sources
+            # must describe it alike
+            sizes[rng.randint(0, nres - 1)] = rng.pick([130, 250])
+        cases.append({'kind': 'pipeline', 'sizes': sizes, 'steps': steps, 'splits': splits, 'cond': rng.chance(0.5), 'late': late})
     for i in range(max(6, n // 6)):
         cases.append({'kind': 'badlink', 'bad': rng.pick(['none', 'int', 'float', 'two_params', 'wrong_name', 'object_no_call']),
                       'depth': rng.randint(0, 2), 'pos': rng.randint(0, 2)})
     return cases
 
 
-def mk_sources(sizes):
+def mk_sources(sizes, late=False):
+    if late:
+        return [[{'id': j, 'v': (7 * j + i) % 5, 's': 'w%d' % (j % 4), 'late': None if j < 120 else j} for j in range(n)]
+                for i, n in enumerate(sizes)]
     return [[{'id': j, 'v': (7 * j + i) % 5, 's': 'w%d' % (j % 4)} for j in range(n)] for i, n in enumerate(sizes)]
 
 
@@ -179,9 +187,9 @@ def canon(dp, rows):
     return {'title': dp.get('title'), 'res': res}
 
 
-def run_lazy(sizes, steps, how='datastream'):
+def run_lazy(sizes, steps, how='datastream', late=False):
     # one-shot generator sources: processing the upstream twice would lose rows
-    links = [(dict(x) for x in r) for r in mk_sources(sizes)] + steps
+    links = [(dict(x) for x in r) for r in mk_sources(sizes, late)] + steps
     with quiet():
         if how == 'datastream':
             ds = Flow(*links).datastream()
@@ -194,10 +202,10 @@ def run_lazy(sizes, steps, how='datastream'):
         return {'title': dp.descriptor.get('title'), 'names': [d['name'] for d in dp.descriptor['resources']]}
 
 
-def run_stepwise(sizes, mk_steps):
+def run_stepwise(sizes, mk_steps, late=False):
     """one step at a time, each on the fully materialised (deep-copied) output of the previous one"""
     with quiet():
-        ds = Flow(*[list(map(dict, r)) for r in mk_sources(sizes)]).datastream()
+        ds = Flow(*[list(map(dict, r)) for r in mk_sources(sizes, late)]).datastream()
         dp = copy.deepcopy(ds.dp.descriptor)
         rows = [[copy.deepcopy(dict(r)) for r in res] for res in ds.res_iter]
         for step in mk_steps():
@@ -242,25 +250,26 @@ def run_impl(case):
         except Exception as e:
             return {'accepted': False, 'exc': type(e).__name__}
     sizes = case['sizes']
+    late = case.get('late', False)
 
     def mk():
         return [mk_step(st, i) for i, st in enumerate(case['steps'])]
     out = {}
     try:
-        out['lazy'] = run_lazy(sizes, mk())
+        out['lazy'] = run_lazy(sizes, mk(), late=late)
     except Exception as e:
         return {'lazy_error': error_text(e)}
     try:
-        out['stepwise'] = run_stepwise(sizes, mk)
+        out['stepwise'] = run_stepwise(sizes, mk, late=late)
     except Exception as e:
         out['stepwise_error'] = error_text(e)
     try:
-        out['regrouped'] = run_lazy(sizes, regroup(mk(), case['splits'], case['cond']))
+        out['regrouped'] = run_lazy(sizes, regroup(mk(), case['splits'], case['cond']), late=late)
     except Exception as e:
         out['regrouped_error'] = error_text(e)
     try:
-        out['results'] = run_lazy(sizes, mk(), 'results')
-        out['process'] = run_lazy(sizes, mk(), 'process')
+        out['results'] = run_lazy(sizes, mk(), 'results', late=late)
+        out['process'] = run_lazy(sizes, mk(), 'process', late=late)
     except Exception as e:
         out['results_error'] = error_text(e)
     return out
